@@ -22,19 +22,24 @@ def opt(s):
     return [] if s is None else [codes(s)]
 
 
-def dump_st(d):
+def dump_st(d, comments=True):
     st = d.get("st")
     if st is None:
         return None
     ents = []
     for sec in st["secs"]:
         for k in sec["keys"]:
-            ents.append({"g": codes(sec["g"]) if sec["g"] is not None else [], "k": codes(k["k"]), "v": codes(k["v"]) if k["v"] is not None else []})
+            ents.append({"g": codes(sec["g"]) if sec["g"] is not None else [], "k": codes(k["k"]), "v": codes(k["v"]) if k["v"] is not None else [],
+                         "cb": codes((k.get("cb") or "") if comments else ""), "ca": codes((k.get("ca") or "") if comments else "")})
     return {"groups": [codes(g) for g in st["groups"]], "ents": ents}
 
 
 class Mixed:
-    def __init__(self, rnd, idx):
+    def __init__(self, rnd, idx, ops=None, comments=False, errloc=False, bad_rate=0.06):
+        self.ops = ops            # None = everything
+        self.comments = comments  # compare comments in dumps (beyond every registered property: own use only)
+        self.with_errloc = errloc
+        self.bad_rate = bad_rate
         self.r = rnd
         self.R = ROOT + "/mx%d" % (idx % 16)
         self.script = ["rm %s" % hx(self.R)]
@@ -56,7 +61,7 @@ class Mixed:
     def op_file(self):
         from gen import gram
         f = self.r.choice(FILES)
-        g = gram.random_file(self.r, self.r.randint(1, 8), "none", 0.06, D="=", C="#")
+        g = gram.random_file(self.r, self.r.randint(1, 8), "none", self.bad_rate, D="=", C="#")
         self.files.add(f)
         self.add("file %s %s" % (hx(self.R + f), hx(file_bytes(g["lines"]))), None)
         lines = g["lines"]
@@ -78,6 +83,8 @@ class Mixed:
         self.errloc()
 
     def errloc(self):
+        if not self.with_errloc:
+            return
         self.add("errloc", lambda ev, root: [{"e": "errloc", "file": codes(self.rel(ev["file"] or "", root)), "line": ev["line"]}])
 
     def op_new(self, h):
@@ -106,7 +113,8 @@ class Mixed:
         self.files.add(f)
 
     def op_dump(self, h):
-        self.add("dump %d" % h, lambda ev, root, h=h: [{"e": "dump", "h": h, "isnull": ev["st"] is None, "st": dump_st(ev) or {"groups": [], "ents": []},
+        self.add("dumpx %d" % h, lambda ev, root, h=h: [{"e": "dump", "h": h, "isnull": ev["st"] is None, "st": dump_st(ev, self.comments) or {"groups": [], "ents": []},
+                                                          "cmp_comments": self.comments,
                                                           "path": codes(self.rel(ev["st"]["path"], root)) if ev["st"] else []}])
 
     def op_free(self, h):
@@ -118,26 +126,27 @@ class Mixed:
         self.conv.append(None)
         for _ in range(3):
             self.op_file()
+        allow = lambda o: self.ops is None or o in self.ops
         for _ in range(nops):
             live = sorted(self.live)
             x = self.r.random()
             free = [h for h in range(1, 7) if h not in self.live]
             if x < 0.12:
                 self.op_file()
-            elif x < 0.24 and free:
+            elif x < 0.24 and free and allow("read"):
                 self.op_read(free[0])
-            elif x < 0.32 and free:
+            elif x < 0.32 and free and allow("readdirs"):
                 self.op_readdirs(free[0])
-            elif x < 0.38 and free:
+            elif x < 0.38 and free and allow("new"):
                 self.op_new(free[0])
-            elif x < 0.58 and live:
+            elif x < 0.58 and live and allow("set"):
                 self.op_set(self.r.choice(live))
-            elif x < 0.70 and live:
+            elif x < 0.70 and live and allow("get"):
                 self.op_get(self.r.choice(live))
-            elif x < 0.78 and len(live) >= 2 and free:
+            elif x < 0.78 and len(live) >= 2 and free and allow("merge"):
                 a, b = self.r.sample(live, 2)
                 self.op_merge(free[0], a, b)
-            elif x < 0.88 and live:
+            elif x < 0.88 and live and allow("write"):
                 self.op_write(self.r.choice(live))
             elif x < 0.97 and live:
                 self.op_dump(self.r.choice(live))
@@ -164,8 +173,19 @@ class Mixed:
         return out
 
 
-def run_mixed(exe, rnd, n, verdict, pid, nops=(10, 60)):
-    hs = [Mixed(rnd, i).build(rnd.randint(*nops)) for i in range(n)]
+OPS = {   # every property exercises the root specification with the calls IT talks about (no misattributed alarms)
+    "C11": {"read", "new", "set", "get"},
+    "C10": {"read", "new", "set", "get"},
+    "C07": {"read", "new", "set", "get", "write"},
+    "C03": {"read", "new", "set", "get", "merge"},
+    "C01": {"readdirs", "get"},
+    "C13": {"read", "readdirs"},
+    "ALL": None,
+}
+
+
+def run_mixed(exe, rnd, n, verdict, pid, nops=(10, 60), comments=False):
+    hs = [Mixed(rnd, i, ops=OPS.get(pid), comments=comments, errloc=(pid in ("C13", "ALL")), bad_rate=0.4 if pid == "C13" else (0.06 if pid == "ALL" else 0.0)).build(rnd.randint(*nops)) for i in range(n)]
     res = core.run_cases(exe, [(i, h.script) for i, h in enumerate(hs)])
     events = []
     spans = []
